@@ -22,13 +22,20 @@ def lit(v):
     return repr(v)
 
 
+def table(params):
+    rows = ['      | parameter | value |'] + ['      | %s | %s |' % (k, lit(v)) for k, v in params]
+    return '\n'.join(rows)
+
+
 def act_text(a):
     k = a[0]
     if k == 'nothing':
         return 'I do nothing'
     if k == 'send':
-        if a[2]:
+        if len(a[2]) == 1:
             return 'I send event %s with %s=%s' % (a[1], a[2][0][0], lit(a[2][0][1]))
+        if len(a[2]) > 1:
+            return 'I send event %s\n%s' % (a[1], table(a[2]))
         return 'I send event %s' % a[1]
     if k == 'wait':
         return 'I wait %d second%s' % (a[1], '' if a[1] == 1 else 's')
@@ -45,8 +52,11 @@ def assertion_text(a):
     if k in t:
         return t[k] % a[1]
     if k == 'fired':
-        if a[2]:
+        if len(a[2]) == 1:
             return 'event %s is fired with %s=%s' % (a[1], a[2][0][0], lit(a[2][0][1]))
+        if len(a[2]) > 1:
+            # Gherkin table for all but the last parameter, which is given inline
+            return 'event %s is fired with %s=%s\n%s' % (a[1], a[2][-1][0], lit(a[2][-1][1]), table(a[2][:-1]))
         return 'event %s is fired' % a[1]
     if k == 'no_event':
         return 'no event is fired'
@@ -289,6 +299,8 @@ class C19(Prop):
                             ps[0][1] = 2
                         if ps and ps[0][0] == 'b' and not isinstance(ps[0][1], bool):
                             ps[0][1] = True
+                        if ps and rnd.random() < 0.3:
+                            ps = [['v', rnd.randint(0, 4)], ['b', rnd.random() < 0.5]]
                     elif r < 0.65:
                         a = ['wait', rnd.randint(1, 4)]
                     elif r < 0.8:
@@ -306,7 +318,12 @@ class C19(Prop):
                     if k in ('entered', 'not_entered', 'exited', 'not_exited', 'active', 'not_active'):
                         a = [k, nm]
                     elif k == 'fired':
-                        ps = [[rnd.choice(['v', 'delay', 'b']), rnd.choice([0, 1, 2, 3])]] if rnd.random() < 0.4 else []
+                        ps = [[rnd.choice(['v', 'delay', 'b']), rnd.choice([0, 1, 2, 3])]] if rnd.random() < 0.5 else []
+                        if ps and rnd.random() < 0.5:
+                            ps = [['v', rnd.choice([0, 1, 2, 3, 4, 5])], ['b', rnd.choice([True, False])]]
+                            if rnd.random() < 0.3:
+                                ps.append(['nosuch', 1])
+                            rnd.shuffle(ps)
                         a = [k, rnd.choice(('out', 'o2', 'e', 'n0')), ps]
                     elif k == 'not_fired':
                         a = [k, rnd.choice(('out', 'o2', 'e', 'n1'))]
